@@ -5,7 +5,7 @@
    implementation's solution is CHECKED against them exactly (in Q) by the correspondence run. *)
 From Coq Require Import List Reals QArith.
 From FDAV Require Import Base.Num Base.Vec Model.Basis Model.Pspline
-  Lemmas.Vec Lemmas.Gram Lemmas.Pspline Lemmas.PsplineConst Lemmas.PsplineLinear Lemmas.PsplineQuadratic.
+  Lemmas.Vec Lemmas.Gram Lemmas.Pspline Lemmas.PsplineConst Lemmas.PsplineLinear Lemmas.PsplineQuadratic Lemmas.Fcptpa Lemmas.PsplineTensor Lemmas.PsplineTensor2.
 Import ListNotations.
 Local Open Scope R_scope.
 
@@ -78,7 +78,10 @@ Print Assumptions C05_diff_annihilates_quadratic.
    order >= 1: C05_constants_reproduced), degree 1 (affine, any order >= 2: C05_affine_reproduced, via the Greville
    identity) and degree 2 (quadratics, any order >= 3, spline degree >= 2 — quadratics do not lie in the space of
    linear splines: C05_quadratic_reproduced, via the quadratic case of Marsden's identity, Lemmas/Marsden2.v).
-   C05_poly_reproduction_partial: the n-D (tensor-product) case is monitored on the implementation, not proved. *)
+   2-D (tensor-product) case: C05_tensor_reproduced below (generic: Kronecker products of marginal coefficient vectors
+   annihilated by the marginal difference matrices) and C05_biquadratic_reproduced (products of quadratics, order >= 3);
+   sums of such products follow from C05_fit_linear_in_y.  C05_poly_reproduction_partial: the 3-D case is monitored on
+   the implementation, not proved (same argument, one more Kronecker factor). *)
 Theorem C05_difference_penalty_annihilates_constants : forall c nb d,
   mv opsR (diffmat opsR nb (S d)) (repeat c nb) = zeros opsR (length (diffmat opsR nb (S d))).
 Proof. exact diffmat_const. Qed.
@@ -124,6 +127,30 @@ Theorem C05_quadratic_reproduced : forall a b nseg p, a < b -> (0 < nseg)%nat ->
   nth k (fitted opsR (design a b nseg p xs) beta) 0 = al + be * nth k xs 0 + ga * (nth k xs 0 * nth k xs 0).
 Proof. exact quadratic_reproduced. Qed.
 Print Assumptions C05_quadratic_reproduced.
+Theorem C05_tensor_reproduced : forall nb1 nb2 d l1 l2 (R1 R2 : list (list R)) (c1 c2 w beta : list R) k,
+  wfB nb1 R1 -> wfB nb2 R2 -> length c1 = nb1 -> length c2 = nb2 ->
+  mv opsR (diffmat opsR nb1 d) c1 = zeros opsR (length (diffmat opsR nb1 d)) ->
+  mv opsR (diffmat opsR nb2 d) c2 = zeros opsR (length (diffmat opsR nb2 d)) ->
+  length beta = (nb1 * nb2)%nat -> Forall (fun v => 0 <= v) w -> 0 <= l1 -> 0 <= l2 ->
+  Aop opsR (nb1 * nb2) (design2 opsR R1 R2) w (pens2 opsR nb1 nb2 d l1 l2) beta
+    = rhs opsR (nb1 * nb2) (design2 opsR R1 R2) w (kron opsR (mv opsR R1 c1) (mv opsR R2 c2)) ->
+  (k < length R1 * length R2)%nat -> (k < length w)%nat -> 0 < nth k w 0 ->
+  nth k (fitted opsR (design2 opsR R1 R2) beta) 0 = nth k (kron opsR (mv opsR R1 c1) (mv opsR R2 c2)) 0.
+Proof. exact tensor_reproduced. Qed.
+Print Assumptions C05_tensor_reproduced.
+Theorem C05_biquadratic_reproduced : forall a1 b1 nseg1 p1 a2 b2 nseg2 p2,
+  a1 < b1 -> (0 < nseg1)%nat -> (2 <= p1)%nat -> a2 < b2 -> (0 < nseg2)%nat -> (2 <= p2)%nat ->
+  forall al1 be1 ga1 al2 be2 ga2 l1 l2 d w xs1 xs2 beta k,
+  Forall (fun x => a1 <= x <= b1) xs1 -> Forall (fun x => a2 <= x <= b2) xs2 ->
+  length beta = ((nseg1 + p1) * (nseg2 + p2))%nat -> Forall (fun v => 0 <= v) w -> 0 <= l1 -> 0 <= l2 ->
+  let R1 := design a1 b1 nseg1 p1 xs1 in let R2 := design a2 b2 nseg2 p2 xs2 in
+  let y := kron opsR (map (fun x => al1 + be1 * x + ga1 * (x * x)) xs1) (map (fun x => al2 + be2 * x + ga2 * (x * x)) xs2) in
+  Aop opsR ((nseg1 + p1) * (nseg2 + p2)) (design2 opsR R1 R2) w (pens2 opsR (nseg1 + p1) (nseg2 + p2) (S (S (S d))) l1 l2) beta
+    = rhs opsR ((nseg1 + p1) * (nseg2 + p2)) (design2 opsR R1 R2) w y ->
+  (k < length xs1 * length xs2)%nat -> (k < length w)%nat -> 0 < nth k w 0 ->
+  nth k (fitted opsR (design2 opsR R1 R2) beta) 0 = nth k y 0.
+Proof. exact biquadratic_reproduced. Qed.
+Print Assumptions C05_biquadratic_reproduced.
 
 (* leverages lie in [0,1] *)
 Theorem C05_leverage_in_unit_interval : forall nb B w pens i z, wfB nb B -> wfP nb pens -> length z = nb ->
